@@ -47,6 +47,8 @@ def gate(ctx, P, rule="GATE", only=None):
     rule3 = "GATE-SUMMARY"
     ctx.rule(rule3, "functions confirmed by reading to pass the integrity gate on every non-error path still do")
     for nm in CONFIRMED_GATES:
+        if only is not None and nm not in only:
+            continue
         ctx.ob(rule3, nm, bool(G.GATES.get(nm)), "c/tskit/tables.c (%s)" % nm,
                "GATES(%s)=%s" % (nm, G.GATES.get(nm)))
     return G
